@@ -396,10 +396,16 @@ func genC16(r *core.Rand, run int) *MuxScenario {
 			}
 		case 6: // re-declare the implicit /Service/Method path for the same method
 			rule = RuleSpec{Selector: rule.Selector, Verb: "post", Body: "*", Template: "/" + m.Service + "/" + m.Name, Path: "/" + m.Service + "/" + m.Name, Want: map[string]string{}}
-			if r.Chance(1, 2) { // ... with an additional binding of its own, which must route like any other
+			switch r.Intn(4) {
+			case 0, 1: // ... with an additional binding of its own, which must route like any other
 				add := genRule(r, 200+i, m)
 				add.Selector = ""
 				rule.Additional = append(rule.Additional, add)
+			case 2: // ... or with a two-level additional binding, which is as invalid here as anywhere
+				inner := RuleSpec{Verb: "get", Template: "/r" + strconv.Itoa(300+i) + "/inner"}
+				mid := RuleSpec{Verb: "get", Template: "/r" + strconv.Itoa(300+i) + "/mid", Additional: []RuleSpec{inner}}
+				rule.Additional = []RuleSpec{mid}
+				rule.Invalid, rule.Path, rule.Want = "nested-additional-bindings", "", nil
 			}
 		}
 		sc.Rules = append(sc.Rules, rule)
